@@ -192,6 +192,37 @@ def run(ctx):
             ctx.count("runs_singleton_init")
         ctx.case(("cfg", repr(sorted(cfg.items()))), nontrivial=cfg["scale"] != 1.0 or bool(cfg.get("singleton_init")))
 
+    # ---------------- (c2) complete runs with a floor: returned MRFs = floor filter of the raw optimiser output
+    if ctx.replay is None:
+        for i in range(4 if ctx.quick() else 40):
+            cfg = tu.gen_config(ctx.rng)
+            cfg["eps"] = ctx.rng.choice([0.01, 0.05, 0.2])
+            res, tr, err, series = tu.execute(cfg, record_states=False, capture_kernel=False)
+            if err is not None or tr is None:
+                ctx.count("floor_runs_raised")
+                continue
+            K = cfg["K"]
+            raws = []
+            # the wrapper records the arguments; recompute each raw result (the optimiser is deterministic)
+            for call in tr.admm_calls[-K:]:
+                with warnings.catch_warnings():
+                    warnings.simplefilter("ignore")
+                    raws.append(mc.reinflate_matrix(admm.admm_optimize_theta(call["cov_copy"], *call["args"][1:], **call["kwargs"]).theta))
+            bad = None
+            for k, (m, raw) in enumerate(zip(res.markov_random_fields, raws)):
+                m = np.atleast_2d(m)
+                for x, y in zip(m.reshape(-1), raw.reshape(-1)):
+                    if 0 < abs(x) < cfg["eps"]:
+                        bad = f"MRF {k} has an entry {x} strictly between 0 and eps={cfg['eps']}"
+                    elif abs(y) >= cfg["eps"] and x != y:
+                        bad = f"MRF {k}: an entry of magnitude >= eps is not what the optimiser produced ({x} vs {y})"
+                    elif abs(y) < cfg["eps"] and x != 0:
+                        bad = f"MRF {k}: an entry below eps was not zeroed ({x} from {y})"
+            if bad:
+                ctx.violation("impl-violation", f"run with covariance floor: {bad}", cfg, {"site": "floor-e2e"})
+            ctx.count("floor_runs_checked")
+            ctx.case(("floorrun", repr(sorted(cfg.items()))), nontrivial=True)
+
     # ---------------- (d) covariance floor on raw optimiser output
     lines = []
     raws = []
